@@ -100,7 +100,7 @@ bool BufferedStream::match(const char* w) {
 	std::size_t bLen = BUF_SIZE - rpos_;
 	if (bLen < wLen) {
 		POTASSCO_ASSERT(wLen <= BUF_SIZE, "Token too long - Increase BUF_SIZE!");
-		std::memcpy(buf_, buf_ + rpos_, bLen);
+		std::memmove(buf_, buf_ + rpos_, bLen);
 		rpos_ = bLen;
 		underflow(false);
 		rpos_ = 0;
